@@ -3,7 +3,7 @@
     ensures res == &self.config,
 //@ fn LoadResult::read
 //@ spec
-    ensures final(clk).now == old(clk).now,
+    ensures final(clk).now == old(clk).now, final(clk).held == old(clk).held,
 //@ fn Run::load_repository
 //@ spec
     requires wf(self),
